@@ -145,8 +145,9 @@ def select(prop, tier, seed, allh):
         home = h["fn"][:3]
         if home in spec["prefixes"] or (prop == "C20" and "c20" in h["ann"]) or (prop.lower() in h["ann"] and prop in ("C01", "C02")):
             t = h["ann"].get("tier", "quick")
-            if prop == "C20" and home != "c20" and isinstance(h["ann"].get("c20"), str) and h["ann"]["c20"]:
-                t = h["ann"]["c20"]
+            key = prop.lower()
+            if home not in spec["prefixes"] and isinstance(h["ann"].get(key), str) and h["ann"][key]:
+                t = h["ann"][key]
             if t == "thorough" and tier != "thorough":
                 continue
             out.append(h)
